@@ -241,7 +241,16 @@ class EBNF_to_BNF(Transformer_InPlace):
         # A helper rule inherits the options of the rule it was created for, so it can only be
         # shared between rules that agree on keep_all_tokens.
         keep_all_tokens = bool(self.rule_options and self.rule_options.keep_all_tokens)
-        return key, keep_all_tokens
+        # Terminals compare equal whatever their filter_out is (a literal "x" next to X: "x"),
+        # but a helper rule filters its tokens like the expression it was created for.
+        return key, keep_all_tokens, tuple(self._terminal_filters(key))
+
+    def _terminal_filters(self, x):
+        if isinstance(x, Terminal):
+            yield x.filter_out
+        elif isinstance(x, (Tree, tuple)):
+            for c in (x.children if isinstance(x, Tree) else x):
+                yield from self._terminal_filters(c)
 
     def _add_rule(self, key, name, expansions):
         t = NonTerminal(name)
